@@ -255,6 +255,8 @@ def mix(rng, e, n, alphabet):
             e.raw(f"{op} {rng.randrange(3)}")
         elif op == "wcounts":
             e.raw(f"wcounts {rng.randrange(nw + 1)}")
+        elif op == "weakRaw":
+            e.raw(f"weakRaw {rng.randrange(nw + 1)}")
         else:
             raise ValueError(op)
 
@@ -269,17 +271,17 @@ def drop_all(rng, e, frac=1.0):
 
 CONTRACT_ALPHA = (
     ["clone"] * 3 + ["drop"] * 5 + ["link"] * 4 + ["unlink"] * 3 + ["downgrade", "upgrade", "dropWeak", "cloneWeak",
-    "storeWeak", "counts", "wcounts", "ptrEq", "unadopt", "getMut", "new", "shuffle", "store"]
+    "storeWeak", "counts", "wcounts", "ptrEq", "unadopt", "getMut", "new", "shuffle", "store", "weakRaw"]
 )
 RAW_ALPHA = CONTRACT_ALPHA + ["adopt"] * 3 + ["adoptSame", "unadoptSame", "take", "take", "store", "unadopt",
                              "tryUnwrap", "makeMut", "downgrade"]
 API_ALPHA = ["tryUnwrap"] * 3 + ["makeMut"] * 3 + ["makeMutField"] * 3 + ["getMut", "intoRaw", "intoRaw", "fromRaw", "fromRaw", "incStrong",
              "decStrong", "decStrong", "dropValue", "clone", "drop", "drop", "downgrade", "downgrade", "cloneWeak",
-             "dropWeak", "link", "unlink", "counts", "wcounts", "upgrade", "take", "store", "store"]
+             "dropWeak", "link", "unlink", "counts", "wcounts", "upgrade", "take", "store", "store", "weakRaw", "weakRaw"]
 NOADOPT_ALPHA = ["new", "clone", "clone", "drop", "drop", "drop", "store", "store", "take", "downgrade", "downgrade",
                  "upgrade", "upgrade", "cloneWeak", "dropWeak", "dropWeak", "storeWeak", "tryUnwrap", "dropValue",
                  "makeMut", "makeMutField", "makeMutField", "getMut", "intoRaw", "fromRaw", "incStrong", "decStrong", "ptrEq",
-                 "counts", "wcounts"]
+                 "counts", "wcounts", "weakRaw"]
 SCRIPT_ACTS = ["clone {r}", "drop {r}", "link {r} {q}", "unlink {r} 0", "downgrade {r}", "upgrade {w}", "dropWeak {w}",
                "upgradeField {k}", "downgradeField {k}", "downgradeField {k}", "counts {r}", "unadopt {r} {q}", "wcounts {w}",
                "cloneWeak {w}"]
